@@ -1,4 +1,10 @@
-"""Thorough tier: seeded-change self-test (DESIGN 1.6).
+"""Thorough tier: seeded-change self-test (DESIGN 1.6), both directions.
+
+Besides the property-breaking changes under seeded/, the behaviour-preserving
+refactorings under seeded_refactor/ (each confirmed to build, pass the suite and
+leave its demonstration unchanged) are replayed: on every one of them the check
+must exit 0 without a VIOLATION line.  A check that reports one is raising a
+false alarm and is treated as broken.
 
 Every kept seeded change under seeded/<id>/ (patch.diff + meta.json) that names
 this property is applied to a scratch copy of /repo/src, the same check is run
@@ -67,3 +73,47 @@ def run(ctx):
         finally:
             shutil.rmtree(tmp, ignore_errors=True)
             shutil.rmtree(out, ignore_errors=True)
+
+
+def refactorings():
+    base = os.path.join(VERIF, 'seeded_refactor')
+    if not os.path.isdir(base):
+        return []
+    return [d for d in sorted(os.listdir(base)) if os.path.exists(os.path.join(base, d, 'patch.diff'))]
+
+
+def _replay_refactor(pid, name):
+    tmp = scratch_copy()
+    out = tempfile.mkdtemp(prefix='masa-seed-out-')
+    try:
+        patch = os.path.join(VERIF, 'seeded_refactor', name, 'patch.diff')
+        p = subprocess.run(['patch', '-p1', '-s', '--fuzz=3', '-d', tmp, '-i', patch], stdout=subprocess.PIPE, stderr=subprocess.STDOUT, text=True)
+        if p.returncode != 0:
+            return name, None, 'patch does not apply to the current tree (%s)' % p.stdout.strip()[:160]
+        env = dict(os.environ, MASA_REPO=tmp, VCHECK_OUT=out, VERIF_TIER='quick')
+        r = subprocess.run([sys.executable, os.path.join(VERIF, 'vcheck'), pid, '--tier', 'quick'], stdout=subprocess.PIPE, stderr=subprocess.STDOUT, text=True, env=env)
+        viol = [l for l in r.stdout.splitlines() if l.startswith('VIOLATION')]
+        first = [l for l in r.stdout.splitlines() if '] ' in l and '[' in l and not l.startswith(('KNOWN', 'VIOLATION', 'inconclusive'))]
+        broken = [l for l in r.stdout.splitlines() if l.startswith('ANALYSIS-BROKEN')]
+        return name, (r.returncode == 0 and not viol), (first[0] if first else (broken[0] if broken else 'exit %d' % r.returncode))[:220]
+    finally:
+        shutil.rmtree(tmp, ignore_errors=True)
+        shutil.rmtree(out, ignore_errors=True)
+
+
+def run_refactorings(ctx):
+    """every kept behaviour-preserving refactoring must leave the check silent"""
+    from concurrent.futures import ThreadPoolExecutor
+    pid = ctx.pid
+    names = refactorings()
+    ctx.analysed['refactorings_replayed'] = len(names)
+    with ThreadPoolExecutor(max_workers=8) as ex:
+        results = list(ex.map(lambda n: _replay_refactor(pid, n), names))
+    for name, ok, msg in results:
+        if ok is None:
+            raise AnalysisBroken('seeded_refactor/%s: %s' % (name, msg))
+        if not ok:
+            raise AnalysisBroken('FALSE ALARM: %s reports a violation (or fails) on the behaviour-preserving refactoring seeded_refactor/%s: %s' % (pid, name, msg))
+        ctx.ob(pid + '.SELFTEST', 'silent-on|' + name, True, 'seeded_refactor/%s/patch.diff' % name, sample='no report on refactoring %s' % name, nontrivial=False)
+    if names:
+        ctx.selftests.append('silent on %d behaviour-preserving refactorings (%s..%s)' % (len(names), names[0], names[-1]))
